@@ -728,7 +728,7 @@ func runCase(seed uint64, conc bool, sc *script) (string, bool, string, map[stri
 		}
 		obs = append(obs, rec)
 		steps++
-		if steps > 1500 { // a handle stuck at its MaxAlloc limit makes autoAssign retry without end: cut the run
+		if steps > 700 { // a handle stuck at its MaxAlloc limit makes autoAssign retry without end: cut the run
 			break
 		}
 	}
